@@ -1,6 +1,6 @@
 """C06 Status decay: the decision table of the status returned by now() is extracted by
 PSI and compared, region by region, with the oracle of DESIGN.md A.1."""
-from .. import psi
+from .. import psi, arith
 from ..psi import fmt
 from . import common
 from .client_model import ClientModel, GRACE_NS
@@ -132,14 +132,16 @@ def run(ctx, chk):
             chk.analysed['paths'] += 1
             if p.kind != 'return':
                 continue
-            src = None
-            for term, op, val, _ in p.conds:
-                if term[0] == 't' and term[1] == 'discr' and op == '==':
-                    src = val
-            if src is None or p.value[0] != 'agg':
+            # the source discriminants this path is taken for: the path's atoms on discr(value) (possibly behind an `as`
+            # cast, `match value as u32 { 0 => .., 1 => .., _ => .. }`), evaluated for each of the three statuses
+            atoms = [(op, val) for term, op, val, _ in p.conds
+                     if arith.strip_casts(term)[0] == 't' and arith.strip_casts(term)[1] == 'discr']
+            if not atoms or p.value[0] != 'agg':
                 continue
             d = eng.discr_of(b.crate, p.value)
-            rows[src] = (p.value[2], d[1] if psi.is_int_const(d) else None)
+            for src in (0, 1, 2):
+                if all((src == val) if op == '==' else (src not in val) for op, val in atoms):
+                    rows[src] = (p.value[2], d[1] if psi.is_int_const(d) else None)
         for s in (0, 1, 2):
             got = rows.get(s)
             chk.ob('C06.D4', 'ffi-status:%d' % s, got is not None and got[1] == s, b.where(0),
